@@ -37,6 +37,7 @@ CLAUSES = {
     "StepNotPastTf": ("C04",),
     "RejectedStepRestoresState": ("C04", "C17"),      # C17: no partially updated state is presented as a solution
     "AcceptedStepWithinTol": ("C04",),
+    "AcceptedStepSatisfiesImplicitRule": ("C04", "C09"),
     "StepUsesCurrentTimeConstants": ("C04",),
     "ResumedEqualsUninterrupted": ("C14",),
     "ResumedFiresSameEvents": ("C14",),
